@@ -7,6 +7,8 @@ templates T (the page or a component template): a contiguous region R of any nod
   V2  into the child:  base block holds other text, child overrides it with R
   V3  half and half:   base block holds R1, child block = `{{ block.super }}` + R2
   V4  into an included template: T[R := {% include "inc" %}], inc = R
+  V5  block.super inside a component body: base block holds a text, the child overrides it with R in which
+      `{{ block.super }}` is placed at the start of the first component body (reference: R with that text there)
 and the family must render exactly like the unsplit program (same output / same error class),
 in both context_behavior modes.  The unsplit program's own correctness is C01's business:
 this is a differential oracle with no hand-written expected value.
@@ -65,6 +67,24 @@ def replace_at(nodes, path, i, j, new_node):
     return nodes[:idx] + (n2,) + nodes[idx + 1:]
 
 
+def insert_in_first_body(region, node):
+    """region with `node` inserted at the start of the first component body (implicit body, or the first fill's body)"""
+    for idx, n in enumerate(region):
+        if n[0] == "Comp" and n[4]:
+            body = n[4]
+            if any(b[0] == "Fill" for b in body):
+                for bi, b in enumerate(body):
+                    if b[0] == "Fill":
+                        body2 = body[:bi] + (b[:4] + ((node,) + b[4],),) + body[bi + 1:]
+                        break
+            elif any(b[0] in ("If", "For") for b in body) and has_fill(body):
+                return None
+            else:
+                body2 = (node,) + body
+            return region[:idx] + (n[:4] + (body2,),) + region[idx + 1:]
+    return None
+
+
 def has_fill(region):
     return any(n[0] == "Fill" or (n[0] in ("If",) and has_fill(n[2])) or (n[0] == "For" and has_fill(n[3])) for n in region)
 
@@ -93,6 +113,14 @@ def splits(template):
                 # V4: include
                 main4 = replace_at(template, path, i, j, ("Raw", '{% include "c10inc" %}'))
                 yield "V4", main4, {"c10inc": r_src}
+                # V5: {{ block.super }} *inside the body of a component* of the overriding block: the base block holds the
+                # text "SS "; the child overrides it with R in which {{ block.super }} is inserted at the start of the first
+                # component body; flattened form = R with the text "SS " at that place
+                r_super, r_flat = insert_in_first_body(R, ("Raw", "{{ block.super }}")), insert_in_first_body(R, ("T", "SS "))
+                if r_super is not None:
+                    base5 = replace_at(template, path, i, j, ("Raw", "{% block r %}SS {% endblock %}"))
+                    flat5 = replace_at(template, path, i, j, ("Raw", print_nodes(r_flat)))
+                    yield "V5", (("Raw", '{% extends "c10base" %}{% block r %}' + print_nodes(r_super) + "{% endblock %}"),), {"c10base": print_nodes(base5), "__flat__": flat5}
 
 
 def render(h, prog, locmem):
@@ -122,14 +150,22 @@ def families(prog, double):
         if not tpl:
             continue
         for variant, main, locmem in splits(tpl):
-            if tname == "page":
-                p2 = Program(main, prog.comps, prog.ctx)
-            else:
+            flat_tpl = locmem.pop("__flat__", None)
+
+            def with_tpl(t):
+                if tname == "page":
+                    return Program(t, prog.comps, prog.ctx)
                 comps = dict(prog.comps)
-                comps[tname] = CompSpec(tname, main, prog.comps[tname].data, prog.comps[tname].probes)
-                p2 = Program(prog.page, comps, prog.ctx)
+                comps[tname] = CompSpec(tname, t, prog.comps[tname].data, prog.comps[tname].probes)
+                return Program(prog.page, comps, prog.ctx)
+
+            p2 = with_tpl(main)
+            if flat_tpl is not None:
+                # the reference is not the original program but its variant with the text in place of block.super
+                yield f"{tname}:{variant}", p2, locmem, with_tpl(flat_tpl)
+                continue
             singles.append((tname, variant, main, locmem))
-            yield f"{tname}:{variant}", p2, locmem
+            yield f"{tname}:{variant}", p2, locmem, None
     if double:
         # two different templates of the same program split at once (own template names)
         for a in range(len(singles)):
@@ -147,7 +183,7 @@ def families(prog, double):
                         page = main
                     else:
                         comps[tname] = CompSpec(tname, main, prog.comps[tname].data, prog.comps[tname].probes)
-                yield f"{ta}+{tb}:{va}", Program(page, comps, prog.ctx), {**la, **lb2}
+                yield f"{ta}+{tb}:{va}", Program(page, comps, prog.ctx), {**la, **lb2}, None
 
 
 PREDICATE_FINDING = "predicate:extends-based-component-nested-in-extends-based-component"
@@ -190,21 +226,22 @@ def worker(w, W, payload):
         flat = render(h, prog, {})
         agg.transitions += 1
         nfam = 0
-        for desc, p2, locmem in families(prog, double and size_ <= double):
+        for desc, p2, locmem, ref_prog in families(prog, double and size_ <= double):
             nfam += 1
             agg.states += 1
+            flat_ = flat if ref_prog is None else render(h, ref_prog, {})
             got = render(h, p2, locmem)
             agg.transitions += 1
             agg.validated += 1
             agg.expected[desc.split(":")[-1]] += 1
             if got[0] == "ok":
                 agg.observe(got[1])
-            if got != flat:
+            if got != flat_:
                 ident = classify(desc, prog, mode)
                 if PREDICATE_FINDING in ident:
                     agg.extra["attributed_by_predicate"] += 1
                 agg.fail(ident,
-                         f"[{mode}] split {desc}: family renders {got}, the flattened program renders {flat}",
+                         f"[{mode}] split {desc}: family renders {got}, the flattened program renders {flat_}",
                          {"part": "compose", "mode": mode, "desc": desc, "flat": prog.to_json(mode), "split": p2.to_json(mode), "templates": locmem,
                           "spec": {"page": prog.page, "comps": {n: c.template for n, c in prog.comps.items()}}})
             if agg.states == 30 and w == 2:
@@ -244,9 +281,11 @@ def replay(ctx, case):
     h = Harness()
     flat = render(h, prog, {})
     ok = True
-    for desc, p2, locmem in families(prog, True):
+    for desc, p2, locmem, ref_prog in families(prog, True):
         if desc != case["desc"]:
             continue
+        if ref_prog is not None:
+            flat = render(h, ref_prog, {})
         got = render(h, p2, locmem)
         print("split:", desc)
         print("page:", p2.page_source())
